@@ -5,8 +5,10 @@ interpreter may produce (a thread switch is possible between any two lines)."""
 from .sendpath_drv import Stepped, watch_locks
 
 
-def count_stops(make, files):
+def count_stops(make, files, reset=None):
     """Dry run of A alone: -> number of line stops."""
+    if reset:
+        reset()
     ctx = make()
     T = Stepped("a", {}, every_line_in=files)
     try:
@@ -25,12 +27,14 @@ def count_stops(make, files):
     return n
 
 
-def explore(make, files, ks=None, lock_holders=()):
+def explore(make, files, ks=None, lock_holders=(), reset=None):
     """make() -> {"a": callable, "b": callable, "observe": callable -> dict, "close": callable, "locks": [objects whose lock attributes
     are to be watched]}.  Yields (k, blocked, observation, errors) for every preemption point k."""
-    n = count_stops(make, files)
+    n = count_stops(make, files, reset)
     points = list(range(0, n + 1)) if ks is None else [k for k in ks if k <= n]
     for k in points:
+        if reset:
+            reset()                     # every run starts from the modules' state as it was right after import (cold memos / caches)
         ctx = make()
         for o in ctx.get("locks", ()):
             watch_locks(o)
